@@ -1219,6 +1219,9 @@ class XsdElement(XsdComponent, ParticleMixin,
                 return True
             elif other.substitution_group == self.name or other.name == self.substitution_group:
                 return True
+            elif any(self.name == x.name for x in other.iter_substitutes()) or \
+                    any(other.name == x.name for x in self.iter_substitutes()):
+                return True
         elif isinstance(other, XsdAnyElement):
             if other.is_matching(self.name, self.default_namespace):
                 return True
